@@ -4238,6 +4238,27 @@ func ruleORD14(w *World, r *Report) {
 // ---------------------------------------------------------------------------------------------------------------
 // LCK-10: delete and metadata read-modify-write exclude each other per node.
 // ---------------------------------------------------------------------------------------------------------------
+// okReturn: a return of fn that does not report failure — its last result is not the constant false and not a non-nil error.
+func okReturn(fn *ssa.Function) func(ssa.Instruction) bool {
+	return func(in ssa.Instruction) bool {
+		rt, isRet := in.(*ssa.Return)
+		if !isRet {
+			return false
+		}
+		if len(rt.Results) == 0 {
+			return true
+		}
+		last := rt.Results[len(rt.Results)-1]
+		if c, isConst := last.(*ssa.Const); isConst && c.Value != nil && types.Identical(c.Type().Underlying(), types.Typ[types.Bool]) {
+			return constant.BoolVal(c.Value)
+		}
+		if types.Identical(last.Type(), types.Universe.Lookup("error").Type()) {
+			return isNilConst(last)
+		}
+		return true
+	}
+}
+
 func ruleLCK10(w *World, r *Report) {
 	r.Doc("LCK-10", "Engine.VDelete removes the node and its metadata while it holds the node's metadata shard lock (getMetadataLockShard), the lock VSetMetadata and VReinforce hold over their read-modify-write; and those two look the node up again after they have the lock, before they write: a write-back cannot put metadata and index entries back for a node a concurrent delete has removed", 3)
 	shard := w.FuncObj("pkg/engine", "Engine.getMetadataLockShard")
@@ -4325,7 +4346,29 @@ func ruleLCK10(w *World, r *Report) {
 		for _, f := range append([]*ssa.Function{fn}, closuresOf(fn)...) {
 			locks := findInstrs(f, isShardLock("Lock"))
 			nLocks += len(locks)
-			if len(locks) == 0 && len(findInstrs(f, callsTo(addMeta))) > 0 {
+			// the look-up / lock / look-up-again sequence as a helper of its own that returns with the lock held
+			// (lockNode(id) (…, lock, ok)): inside it, every way from the Lock to a return that does not say "not found"
+			// passes the second look-up
+			viaHelper := 0
+			for _, in := range findInstrs(f, func(in ssa.Instruction) bool {
+				c, isCall := in.(*ssa.Call)
+				if !isCall || c.Call.StaticCallee() == nil || !inModule(c.Call.StaticCallee()) {
+					return false
+				}
+				o, _ := c.Call.StaticCallee().Object().(*types.Func)
+				return o != nil && !o.Exported() && relPkg(o) == "pkg/engine" && len(findInstrs(c.Call.StaticCallee(), isShardLock("Lock"))) > 0
+			}) {
+				h := in.(*ssa.Call).Call.StaticCallee()
+				found := okReturn(h)
+				for _, l := range findInstrs(h, isShardLock("Lock")) {
+					if fd, wt := (pathQuery{fn: h, target: found, avoid: callsTo(getID)}).find(posOf(l)); fd {
+						ok, wit = false, wt
+					}
+				}
+				viaHelper++
+			}
+			nLocks += viaHelper
+			if len(locks) == 0 && viaHelper == 0 && len(findInstrs(f, callsTo(addMeta))) > 0 {
 				ok = false // a write-back in a function that does not take the lock itself
 			}
 			for _, l := range locks {
